@@ -35,7 +35,7 @@ func successPaths(fn *ssa.Function, valueIdx int) []an.Path {
 	ps, _ := an.Paths(fn, 4096)
 	var out []an.Path
 	for _, p := range ps {
-		if p.Ret != nil && valueIdx < len(p.Ret.Results) && !an.IsNilConst(p.Ret.Results[valueIdx]) {
+		if p.Ret != nil && valueIdx < len(p.Ret.Results) && !an.IsNilConst(an.RetVal(p.Ret, valueIdx)) {
 			out = append(out, p)
 		}
 	}
@@ -265,7 +265,7 @@ func c03(c *Ctx) {
 		for _, b := range f.Blocks {
 			for _, in := range b.Instrs {
 				if ret, ok2 := in.(*ssa.Return); ok2 && len(ret.Results) == 1 {
-					o := tr.OriginString(ret.Results[0])
+					o := tr.OriginString(an.RetVal(ret, 0))
 					got = append(got, simplifyOrigin(o))
 					if (strings.Contains(o, "Sha1") || strings.Contains(o, "sha1.Sum")) && (strings.HasSuffix(o, "["+lo+":"+hi+"]") || hi == "20" && strings.HasSuffix(o, "["+lo+":]")) {
 						ok = true
@@ -484,6 +484,36 @@ func c03Acceptance(c *Ctx) {
 			r.Undecide("R03.A", "accept:encrypted/lengths", c.pos(f.Pos()), "declared length or success exit not found")
 		} else {
 			r.Check(len(bad) == 0, "R03.A", "accept:encrypted/lengths", c.pos(f.Pos()), sprintf("%d honest (packet length, declared length, padding 0..15) points evaluated; refused: %s", n, strings.Join(bad, "; ")))
+		}
+	}
+	// once the message key has vouched for the packet nothing refuses it any more: the checks that may refuse
+	// (lengths, parity) come before; a refusal behind the key comparison turns away a packet a conformant server
+	// sealed (an empty body leaves the reader at end of input, and a zero-length read at end of input is io.EOF)
+	if f := c.P.Func(load.MsgPkg, "", "DeserializeEncrypted"); f != nil {
+		var key *an.Cond
+		for _, i := range an.Ifs(f) {
+			cd, ok := an.Classify(i)
+			if ok && cd.Kind == "bytes.Equal" && strings.Contains(tr.OriginString(cd.X)+tr.OriginString(cd.Y), "Sha1Byte") {
+				key = cd
+			}
+		}
+		if key == nil {
+			r.Undecide("R03.A", "accept:encrypted/nothing-refuses-after-the-key-check", c.pos(f.Pos()), "the msg_key comparison was not found")
+		} else {
+			reach := an.ReachFrom(f, key.EdgeWhen(true), nil)
+			var bad []string
+			nret := 0
+			for _, b := range f.Blocks {
+				ret, ok := b.Instrs[len(b.Instrs)-1].(*ssa.Return)
+				if !ok || !reach[b] || len(ret.Results) != 2 {
+					continue
+				}
+				nret++
+				if k, isConst := an.RetVal(ret, 1).(*ssa.Const); !isConst || k.Value != nil {
+					bad = append(bad, "error exit at "+c.pos(ret.Pos()))
+				}
+			}
+			r.Check(len(bad) == 0 && nret > 0, "R03.A", "accept:encrypted/nothing-refuses-after-the-key-check", c.pos(key.If.Cond.Pos()), sprintf("%d exit(s) behind the equal edge of the msg_key comparison; %s", nret, strings.Join(bad, "; ")))
 		}
 	}
 	for _, t := range []struct{ pkg, recv, name, key string }{
